@@ -144,9 +144,52 @@ META3 = {
  "C19-m2": ("d08", "C19", "proto.DiscardUnknown(m) before encoding", "a message carrying unknown fields", ""),
 }
 
+META4 = {
+ "C01-m1": ("e01", "C01", "Shutdown case also deletes every affinityMap entry pointing at the shut-down SubConn", "fallback disabled, a key whose home channel reports SHUTDOWN: routed like an unknown key instead of waiting", "initially missed (C01 histories never shut a pool connection down); they now do in 30% of the cases"),
+ "C01-m2": ("e01", "C01", "BIND completion binds only the first key of the reply", "a BIND response carrying several keys (locator through a repeated field)", ""),
+ "C08-m1": ("e01", "C08", "stand-in selection returns nil when every READY channel is at the watermark and the pool is below max_size", "saturated pool below maxSize, home down, no remembered stand-in", ""),
+ "C08-m2": ("e01", "C08", "'recovered subconn' clean-up empties the whole fallbackMap", "an unrelated third channel turns READY while the home is still down", ""),
+ "C02-m1": ("e02", "C02", "getReadySubConnRef looks in fallbackMap before affinityMap (stale entry after UNBIND)", "fallback on: home down, stand-in created, key unbound, home recovers; a later call with that unknown key is pinned", ""),
+ "C02-m2": ("e02", "C02", "streamsIncr moved into the decision sites; the at-maxSize overflow return forgets it", "pool at maxSize with every READY channel at or above the watermark", ""),
+ "C03-m1": ("e02", "C03", "a replacement reporting TRANSIENT_FAILURE is abandoned and removed", "the replacement's first connection attempt fails", ""),
+ "C03-m2": ("e02", "C03", "'any channel idle or connecting' scan looks only at the most recently created channel", "newest channel READY, an older one reconnecting, READY channels saturated", ""),
+ "C09-m1": ("e02", "C09", "a BIND whose context has already ended only peeks at the next slot (no ticket)", "sequence ok, cancelled, ok over three channels", ""),
+ "C09-m2": ("e02", "C09", "fast path returns the assigned channel at once if it is in the picker's READY snapshot", "a BIND pick on a stale picker after the channel left READY", ""),
+ "C04-m1": ("e03", "C04", "refresh completion no longer deletes the replacement from refreshingScRefs", "later non-READY reports of the now-pooled replacement are swallowed", ""),
+ "C04-m2": ("e03", "C04", "the replacement's state entry is only set when the old connection is still known", "old connection shut down mid-refresh, replacement joins when READY, its reports count as unknown", "initially missed (only C20/C07 histories shut a connection down during its refresh); C04 histories now run the shutdown-during-refresh macro too"),
+ "C07-m1": ("e03", "C07", "the takeover no longer resets deCalls", "after the doubled window one deadline-exceeded call refreshes again", ""),
+ "C07-m2": ("e03", "C07", "break after the first re-mapped key in the affinityMap loop at takeover", "two or more keys bound to the refreshed channel", "initially attributed to C01 only (C01.home-ready after a refresh); keyed-pick / stream-count / stand-in violations on a refreshed channel are now reported as C07.takeover in a C07 run"),
+ "C20-m1": ("e03", "C20", "addresses still forwarded to in-flight replacements but Connect() no longer called on them", "a resolver update while a refresh is in flight", "initially missed (a replacement's address list was only checked when it took over); every resolver update now checks addresses and Connect of replacements in flight"),
+ "C20-m2": ("e03", "C20", "an empty address list after a non-empty one returns ErrBadResolverState before gb.addrs is updated", "a resolver update with an empty list on a non-empty pool", "initially missed (C20 histories had no empty updates); they now have them in 30% of the cases"),
+ "C05-m1": ("e04", "C05", "waitForStream ends with 'return cs.ClientStream, cs.initStreamErr' (nil, nil after a cancelled context)", "RecvMsg/Header before the first SendMsg with the context cancelled: nil dereference", "initially missed by the C05 check (the stream wrapper was only exercised by C12); the stream engine is now also a stage of C05, where only its panics count"),
+ "C05-m2": ("e04", "C05", "getLeastBusyReadySubConnRef starts from p.scRefs[0] of the current picker", "fallback on, key bound to a non-READY SubConn, current picker empty (CONNECTING), pick on a superseded picker", ""),
+ "C05-m3": ("e04", "C05", "unbindSubConn lost its check that the bound SubConn is still in the pool", "UNBIND picked while READY, completed after that SubConn was reported SHUTDOWN", ""),
+ "C06-m1": ("e04", "C06", "warning log on the addSubConn failure path of enforceMinSize calls getConnectionPoolSize() (re-lock)", "the factory fails while the pool is grown to min_size during a resolver update", "first run INCONCLUSIVE after 905 s (hundreds of histories each paid the 1.5 s deadlock confirmation until the batch timed out); a batch now stops after eight deadlocked histories"),
+ "C06-m2": ("e04", "C06", "detectUnresponsive holds scRef.mu.RLock across gb.refresh() (lock order inversion)", "a deadline-exceeded completion racing the replacement of the same ref becoming READY", ""),
+ "C06-m3": ("e04", "C06", "explicit unlocks in getAndIncrementSubConnRef forget the (nil, nil) exit", "a bound key whose SubConn is not READY with no fallback: the picker mutex stays locked", ""),
+ "C10-m1": ("e05", "C10", "plain ++ on gb.rrRefId under the shared RLock", "two or more concurrent round-robin BIND picks", ""),
+ "C10-m2": ("e05", "C10", "unresponsiveDetection flag recomputed in every UpdateClientConnState", "a later resolver update while Done callbacks read the flag lock-free", ""),
+ "C10-m3": ("e05", "C10", "scRef.subConn = sc moved out of the scRef.mu critical section at refresh completion", "a replacement becoming READY while another goroutine is inside Pick", ""),
+ "C10-m4": ("e05", "C10", "GCPMultiEndpoint.Close() no longer takes gme.mu", "Close concurrent with an UpdateMultiEndpoints that adds or removes a pool", "initially missed (Close only overlapped RPCs); half of the gme race runs now call Close while reconfigurations are still being applied"),
+ "C11-m1": ("e06", "C11", "pointer/interface dereference happens after the end-of-path string check", "a path ending on a *string, a []*string element or an interface holding a string", ""),
+ "C11-m2": ("e06", "C11", "generic 'nil field' check makes a nil slice an error", "a nil (not merely empty) repeated field", ""),
+ "C12-m1": ("e06", "C12", "SendMsg decides from an initStarted flag set before the creation attempt", "the streamer fails on the first SendMsg; every later SendMsg dereferences nil", ""),
+ "C12-m2": ("e06", "C12", "stream (re)created while a firstSent flag is false, set only after a successful underlying send", "creation succeeds but the first underlying send returns an error; the next SendMsg creates a second stream", "initially missed (the fake stream's sends never failed); scenarios where the first send on the new stream returns io.EOF were added"),
+ "C13-m1": ("e07", "C13", "SetEndpoints hands a removed current over to the list's first endpoint when that endpoint is already tracked, before re-evaluating", "recovery > 0, current removed, kept recovering first endpoint, lower-priority endpoint available", ""),
+ "C14-m1": ("e07", "C14", "recovery-timer callback decides it is outdated by e.status != recovering instead of lastChange", "a timer that already fired and waits for the lock, overtaken by an available and an unavailable report", ""),
+ "C15-m1": ("e07", "C15", "pickConn releases gme.mu after choosing the MultiEndpoint and looks the pool up in a copied map header outside the lock", "an UpdateMultiEndpoints overlapping the pick and removing that endpoint: nil dereference / closed pool", "initially missed by the C15 check (RPCs never overlapped an update; the C10 check reported the race at once); a third of the updates now run with RPCs in flight and a delay at pickConn's instrumented yield sites"),
+ "C16-m1": ("e07", "C16", "dial-failure rollback iterates validPools instead of addedPools", "a rejected update mentioning an existing endpoint plus one whose dial fails: the pre-existing pool is closed", ""),
+ "C17-m1": ("e08", "C17", "initializeConfig raises maxSize to minSize when it is smaller", "a config with minSize above maxSize (or above the default 4)", "initially missed (generated configs always had minSize <= maxSize); a tenth of them now have minSize 5-6 with maxSize 0-3"),
+ "C17-m2": ("e08", "C17", "method-table loop skips entries whose affinity key is empty instead of entries without affinity section", "an entry with an affinity section but an empty key", ""),
+ "C18-m1": ("e08", "C18", "instanceURI/databaseURI rebuilt with path.Join (cleans the result)", "flag-valid values '', '.', '..'", ""),
+ "C18-m2": ("e08", "C18", "overflow check of parseT4T7Latency reduced to a sign-flip test", "huge values whose product wraps to the same sign (dur=18446744073710)", "initially missed (the overflow inputs all flipped the sign); any 63-bit count is now generated"),
+ "C19-m1": ("e08", "C19", "CRC computed over the first encoding, message re-encoded behind the checksum field", "a message with a map field of two or more entries (random entry order)", ""),
+ "C19-m2": ("e08", "C19", "Unmarshal rewritten with proto.NewBuffer(data).Unmarshal(m), which merges", "decoding into a message that already holds data", "initially missed (decoding always used a fresh target); the output is now also decoded into a populated message of the same type"),
+}
+
 def main():
     kept, skipped = [], []
-    items = [("r1-" + k, k, v) for k, v in META.items()] + [("r2-" + k, k, v) for k, v in META2.items()] + [("r3-" + k, k, v) for k, v in META3.items()]
+    items = [("r1-" + k, k, v) for k, v in META.items()] + [("r2-" + k, k, v) for k, v in META2.items()] + [("r3-" + k, k, v) for k, v in META3.items()] + [("r4-" + k, k, v) for k, v in META4.items()]
     for mid, dname, (agent, prop, change, needs, note) in sorted(items):
         d = os.path.join(SRC, agent, dname)
         conf = os.path.join(d, "confirm.txt")
